@@ -30,6 +30,9 @@ func main() {
 		fmt.Sscan(os.Args[4], &lim)
 		os.Exit(storeChild(os.Args[2], os.Args[3], lim, os.Args[5]))
 	}
+	if os.Args[1] == "cfghash-child" && len(os.Args) == 3 {
+		os.Exit(cfgHashChild(os.Args[2]))
+	}
 	if os.Args[1] == "hash-child" && len(os.Args) == 3 {
 		os.Exit(hashChild(os.Args[2]))
 	}
@@ -68,6 +71,8 @@ func main() {
 		res = runReplicasEngine(a)
 	case "labels":
 		res = runLabelsHash(a)
+	case "cfghash":
+		res = runCfgHash(a)
 	default:
 		fmt.Fprintln(os.Stderr, "unknown engine", a.engine)
 		os.Exit(2)
